@@ -60,7 +60,7 @@ func (g *c05Gen) cond(ctrs []string) string {
 // innermost loop; outer tells whether that loop is itself nested in a construct.
 func (g *c05Gen) stmt(ind string, depth int, ctrs []string, inLoop bool, sinceLoop int, loopNested bool, braced bool) {
 	g.budget--
-	choices := 9
+	choices := 10
 	if depth <= 0 || g.budget <= 0 {
 		choices = 3
 	}
@@ -102,6 +102,27 @@ func (g *c05Gen) stmt(ind string, depth int, ctrs []string, inLoop bool, sinceLo
 			g.b.WriteString(ind + bn.KwElse)
 			g.body(ind, depth-1, ctrs, inLoop, sinceLoop+1, loopNested, false)
 		}
+	case 9: // else-if ladder whose conditions are tagged probes
+		rungs := 2 + g.pick("rungs", 3)
+		for r := 0; r < rungs; r++ {
+			kw := bn.KwIf
+			if r > 0 {
+				kw = bn.KwElse + " " + bn.KwIf
+			}
+			g.nTag++
+			cond := fmt.Sprintf("pr(\"c%d\", %s)", g.nTag, g.cond(ctrs))
+			if r == 0 {
+				g.b.WriteString(ind + kw + " (" + cond + ") {\n")
+			} else {
+				g.b.WriteString(ind + "} " + kw + " (" + cond + ") {\n")
+			}
+			g.stmt(ind+"  ", depth-1, ctrs, inLoop, sinceLoop+1, loopNested, true)
+		}
+		if g.pick("else", 2) == 0 {
+			g.b.WriteString(ind + "} " + bn.KwElse + " {\n")
+			g.stmt(ind+"  ", depth-1, ctrs, inLoop, sinceLoop+1, loopNested, true)
+		}
+		g.b.WriteString(ind + "}\n")
 	case 5: // block
 		g.b.WriteString(ind + "{\n")
 		n := 1 + g.pick("n", 3)
@@ -125,7 +146,9 @@ func (g *c05Gen) stmt(ind string, depth int, ctrs []string, inLoop bool, sinceLo
 			g.stmt(ind+"  ", depth-1, append(append([]string{}, ctrs...), c), true, 0, inLoop || sinceLoop > 0 || len(ctrs) > 0, true)
 		}
 		g.b.WriteString(ind + "}\n")
-	default: // for, all clause combinations
+	case 7, 8: // for, all clause combinations
+		fallthrough
+	default:
 		if !braced {
 			g.b.WriteString(ind + g.tag() + "\n")
 			return
@@ -209,7 +232,7 @@ func (g *c05Gen) body(ind string, depth int, ctrs []string, inLoop bool, sinceLo
 // smallArity caps the arity of the generator's decisions in the enumerated
 // tiers, so that the decision tree can be walked completely.
 var smallArity = map[string]int{"const": 2, "condkind": 2, "cmp": 2, "k": 1, "bound": 2, "n": 2, "showctr": 1, "probes": 2,
-	"braced": 2, "init": 2, "cond": 2, "incr": 2, "ret": 2, "else": 2, "simple": 3, "ctr": 1, "nbody": 1}
+	"braced": 2, "init": 2, "cond": 2, "incr": 2, "ret": 2, "else": 2, "simple": 3, "ctr": 1, "nbody": 1, "rungs": 1}
 
 // walkDecisions runs gen for every decision vector of its (arity-capped)
 // decision tree, up to maxLeaves complete programs; it reports whether the
